@@ -91,8 +91,12 @@ def gen_history(rnd, sid, nedges, nsteps, feat=None, faults=0.0, wf_reads=True, 
         elif r < 0.91 and g.dd_info:
             # change what a dyndep file says (valid for the graph): add/remove a discovered input, flip restat
             dd = rnd.choice(sorted(g.dd_info)); info = g.dd_info[dd]
-            out0 = rnd.choice(sorted(info)); io, ii, rs = info[out0]
+            cands = [o for o in sorted(info) if any(x in h.sources and not x.startswith('dd') for x in [y for ed in g.edges if ed.out0 == o for y in ed.exp])]
+            if not cands: continue
+            out0 = rnd.choice(cands); io, ii, rs = info[out0]
             e = [x for x in g.edges if x.out0 == out0][0]
+            # what a command reads only changes because one of its own sources changed
+            h.edit(rnd.choice([x for x in e.exp if x in h.sources and not x.startswith('dd')]), 'ddedit.%d' % rnd.randrange(1000000))
             pos = g.edges.index(e)
             earlier = [x for x in list(g.sources) + [o for pe in g.edges[:pos] for o in pe.outs] if x not in e.manifest_ins() and x != dd and not x.startswith('dd')]
             if ii and rnd.random() < 0.4: ii = ii[:-1]
